@@ -125,7 +125,7 @@ def close(obs, exp, clock):
 
 
 def run_process(flavour, flags, p, ops, timeout=300):
-    exe = build.harness("iso.cpp", flavour)
+    exe = build.harness("iso.cpp", flavour, deps=["plat.hpp"])
     text = "\n".join(iso.platform_text(p) + [iso.op_text(o) for o in ops]) + "\n"
     return proc.run([exe, "--log=root.thres:critical"] + flags, stdin=text, timeout=timeout)
 
@@ -157,10 +157,11 @@ def judge(ctx, cfgname, flags, prm, flavour, p, ops, res, directed=False):
         ok = all(any(close(d, e, t1) for e in exp) for _, d in durs)
         if "gamma-limited" in cls and len(exp) > 1:
             ctx.count("points.gamma_limited_two_readings")
-        err = min(abs(durs[0][1] - e) for e in exp)
-        ctx.maximum("worst_abs_err_over_tolerance", err / (PREC_TIMING + REL * max(abs(t1), abs(exp[0]))))
-        if exp[0] > 0:
-            ctx.maximum("worst_rel_err_when_held", err / max(exp[0], t1) if ok else 0.0)
+        err = max(min(abs(d - e) for e in exp) for _, d in durs)
+        if ok:
+            ctx.maximum("held.worst_err_over_tolerance", err / (PREC_TIMING + REL * max(abs(t1), abs(exp[0]))))
+            if err > 0:
+                ctx.maximum("held.worst_err_relative_to_clock", err / max(abs(t1), abs(exp[0]), 1e-300) if exp[0] > 1e-3 else 0.0)
         if ok:
             ctx.nontrivial("%s|%s" % (cfgname, cls))
             continue
@@ -182,16 +183,16 @@ DIRECTED_PLATFORM = {
     "routes": [{"src": "h0", "dst": "h1", "sym": 1, "links": [("l0", "N")]}],
     "disks": [{"host": "h0", "name": "d0", "rbw": 1e8, "wbw": 5e7}],
 }
-DIRECTED_OPS = [{"k": "C", "src": "h0", "dst": "h1", "size": float(s)} for s in (800000, 1, 256, 257, 258, 65471, 65472, 65473, 1000, 5000, 999, 4999)]
+DIRECTED_OPS = [{"k": "C", "src": "h0", "dst": "h1", "size": float(s)} for s in (800000, 0, 1, 256, 257, 258, 65471, 65472, 65473, 1000, 5000, 999, 4999)]
 
 
 def run(ctx):
-    nplat = ctx.size(5, 160)          # platforms per configuration
-    nops = 70                         # activities per process
+    nplat = ctx.size(3, 100)          # platforms per configuration
+    nops = 120                        # activities per process
     tmp = tempfile.mkdtemp(prefix="verif-C20-")
     try:
         for fl in ("hooks", "asan"):
-            build.harness("iso.cpp", fl)
+            build.harness("iso.cpp", fl, deps=["plat.hpp"])
         jobs = []
         cfgs = configs(ctx.sub_rng("cfg"))
         for ci, (name, flags, prm) in enumerate(cfgs):
@@ -205,8 +206,8 @@ def run(ctx):
                 # small durations first: the clock stays small while they are measured
                 ops.sort(key=lambda o: expected(p, o, prm if prm else doc.MODEL_DEFAULTS["LV08"])[0][0])
                 jobs.append((name, flags, prm, "hooks", p, ops, False))
-                if pi % 10 == 0:
-                    jobs.append((name, flags, prm, "asan", p, ops, False))
+                if pi % 25 == 0:      # ASan+UBSan: process start and context switches are slow, fewer and shorter processes
+                    jobs.append((name, flags, prm, "asan", p, ops[::3], False))
         ctx.sample({"cfg": jobs[0][0], "platform": iso.platform_text(DIRECTED_PLATFORM), "ops": [iso.op_text(o) for o in DIRECTED_OPS]})
         ctx.sample({"cfg": jobs[1][0], "flags": jobs[1][1], "platform": iso.platform_text(jobs[1][4]), "ops": [iso.op_text(o) for o in jobs[1][5][:12]]})
 
